@@ -63,6 +63,10 @@ FAILS = [("error", 5), ("div", 5), ("index", 3), ("longexpr", 3), ("longarr", 2)
          ("funlit2", 2), ("funlitml", 2)]
 CALLS = [("ret", 8), ("assign", 3), ("funlit", 3), ("funlit2", 2), ("funlitml", 2), ("catch", 2), ("multi", 2)]
 CALLS_PLAIN = [("ret", 8), ("assign", 3), ("catch", 2), ("multi", 2)]
+# calls of a function of the same object that do not go through a local call instruction: apply_low (call_other,
+# also from a simul_efun and through efun / simul_efun pointers) and function pointers to the local function
+CALLS_LOCALNAME = [("co_self", 4), ("co_arrow", 2), ("simul", 3), ("fp_local", 3), ("fp_efun", 2), ("fp_simul", 2)]
+SIMUL_PROG, SIMUL_OBJ, SIMUL_LINE = "c18/simul_efun.c", "/c18/simul_efun", 4
 
 
 class Gen:
@@ -95,6 +99,26 @@ class Gen:
         call = nxt if callable(nxt) else (lambda a: "%s(%s)" % (nxt, a))
         kinds = CALLS if not (isinstance(nxt, str) and nxt.startswith("::")) else CALLS_PLAIN
         kind = r.weighted(kinds)
+        if isinstance(nxt, str) and not nxt.startswith("::") and not oneline and r.chance(2, 5):
+            # the next function is reached through apply_low / a function pointer instead of a local call
+            kind = r.weighted(CALLS_LOCALNAME)
+            expr = {"co_self": 'call_other(this_object(), "%s", k)' % nxt,
+                    "co_arrow": 'this_object()->%s(k)' % nxt,
+                    "simul": 'c18_via(this_object(), "%s", k)' % nxt,
+                    "fp_local": 'evaluate((: %s :), k)' % nxt,
+                    "fp_efun": 'evaluate((: call_other :), this_object(), "%s", k)' % nxt,
+                    "fp_simul": 'evaluate((: c18_via :), this_object(), "%s", k)' % nxt}[kind]
+            src.text("int %s(int k) {\n" % name)
+            src.pad("s", r.weighted(FILL))
+            lo = src.line
+            src.text("  return %s + 1;\n" % expr)
+            frames.append((name, prog, obj, src.name, lo, lo))
+            if kind in ("simul", "fp_simul"):
+                frames.append(("c18_via", SIMUL_PROG, SIMUL_OBJ, SIMUL_PROG, SIMUL_LINE, SIMUL_LINE))
+            src.pad("s", r.weighted(FILL))
+            src.text("  return x_;\n}\n")
+            self.meta.setdefault("calls", []).append(kind)
+            return False
         if oneline:
             # the whole function on ONE line (used for the last line of a file)
             kind = r.choice(["ret", "assign", "catch"] + ([] if kinds is CALLS_PLAIN else ["funlit"]))
@@ -289,7 +313,7 @@ class Gen:
         return files, caught, err
 
     def build(self, fail_kind=None, depth=None, bdepth=None, nchild=None, nbase=None, binary=None, fail_slot=None,
-              prepad=None, kind="plain", other=None, override=None, tails=None, btails=None):
+              prepad=None, kind="plain", other=None, override=None, tails=None, btails=None, via=None, rep=None):
         """chain of calls: child functions (object m) -> [child's override b1 calling ::b1] -> inherited functions, or
         child functions -> call_other into object `other` -> its functions -> [functions other inherits]"""
         r = self.rng
@@ -312,14 +336,30 @@ class Gen:
         caught = False
         allfiles = []
 
-        def head_for(fns, inh):
+        via = r.weighted([("apply", 6), ("reset", 1), ("hb", 1), ("callout", 1), ("clone", 1)]) if via is None else via
+        rep = r.weighted([(1, 2), (2, 5), (3, 2)]) if rep is None else rep
+        wrap = {}
+
+        def head_for(fns, inh, wrappers=False):
             h = pragma + (('inherit "%s/base";\n' % d) if inh else "int x_;\n")
-            return h + "void set_oid(string s) {}\n" + "".join("int %s(int k);\n" % f for f in fns)
+            h += "void set_oid(string s) {}\n" + "".join("int %s(int k);\n" % f for f in fns)
+            if wrappers:
+                # frames the driver creates itself: create() of a clone, reset(), heart_beat(), a call_out
+                h += "int arm_;\nint go(int k);\n"
+                n = h.count("\n") + 1
+                h += ("void arm(mixed a) { a = to_int(a); arm_ = a; if (a == 3) set_heart_beat(1); if (a == 4) { call_out(\"later\", 1); call_out(\"later\", 1); } }\n"
+                      "void create() { if (clonep(this_object())) go(0); }\n"
+                      "void reset() { if (arm_ == 2) go(0); }\n"
+                      "void heart_beat() { if (arm_ == 3) go(0); }\n"
+                      "void later() { go(0); }\n")
+                wrap.update({"clone": ("create", n + 1), "reset": ("reset", n + 2), "hb": ("heart_beat", n + 3),
+                             "callout": ("later", n + 4)})
+            return h
 
         if other:
             nxt_child = (lambda a: '"%s"->%s(%s)' % (oobj, of[0], a)) if r.chance(1, 2) else \
                         (lambda a: 'call_other("%s", "%s", %s)' % (oobj, of[0], a))
-            files, c1, _ = self.program("%s/m.c" % d, cf, nxt_child, (cprog, cobj), frames, head_for(cf[1:], False),
+            files, c1, _ = self.program("%s/m.c" % d, cf, nxt_child, (cprog, cobj), frames, head_for(cf[1:], False, True),
                                         depth, fail_kind, None, prepad, tails)
             ofiles, c2, _ = self.program("%s/other.c" % d, of, bf[0] if bf else None, (oprog, oobj), frames,
                                          head_for(of[1:], inherit), r.weighted([(0, 3), (1, 2)]), fail_kind,
@@ -331,7 +371,7 @@ class Gen:
             cfn = cf + ([bf[0]] if override else [])
             nxt_child = ("::" + bf[0]) if override else (bf[0] if bf else None)
             files, caught, _ = self.program("%s/m.c" % d, cfn, nxt_child, (cprog, cobj), frames,
-                                            head_for(cfn[1:], inherit), depth, fail_kind, None if bf else fail_slot, prepad,
+                                            head_for(cfn[1:], inherit, True), depth, fail_kind, None if bf else fail_slot, prepad,
                                             tails)
             allfiles = list(files)
             run_obj = cobj
@@ -342,19 +382,35 @@ class Gen:
                                          fail_slot, None, btails)
             allfiles = bfiles + allfiles
             caught = caught or c3
-        # `go` is called without arguments: k = 0 everywhere
+        # `go` is called without arguments: k = 0 everywhere.  The whole scenario runs `rep` times in the same driver
+        # (the first run fills the apply cache, the later ones create their frames through the cache-hit path) and is
+        # started by a plain apply or by the driver itself (reset, heart beat, call_out, create of a clone)
+        if via != "apply":
+            wname, wline = wrap[via]
+            wobj = cobj + "#*" if via == "clone" else cobj
+            frames = [(wname, cprog, wobj, cprog, wline, wline)] + \
+                [(f[0], f[1], wobj if f[2] == cobj else f[2]) + f[3:] for f in frames]
         last = frames[-1]
         exp = "expect kind=%s file=%s lines=%d-%d program=%s object=%s trace=%s" % (
             kind, last[3], last[4], last[5], last[1], last[2],
             "|".join("%s@%s@%s@%s@%d-%d" % f for f in frames))
+        if via == "callout":
+            rep = 2
+        trig = {"apply": ["apply o1 go", exp] * rep,
+                "reset": ["vapply o1 arm 2"] + ["reset o1", exp] * rep,
+                "hb": ["vapply o1 arm 3", "tick 1", exp] * rep,
+                "callout": ["vapply o1 arm 4", "tick 2", exp, exp],
+                "clone": ["clone o5 %s/m" % d, exp] * rep}[via]
         lines = [s.cmd() for s in allfiles]
         loads = (["load o3 %s/base" % d] if inherit else []) + (["load o2 %s/other" % d] if other else []) + \
             ["load o1 %s/m" % d]
-        lines += loads + ["apply o1 go", "dump o1"] + (["dump o2"] if other else []) + [exp]
+        dumps = ["dump o1"] + (["dump o2"] if other else [])
+        lines += loads + trig + dumps
         if binary:
             # every program of the family is dropped and comes back from its saved binary
             lines += ["unload o1"] + (["unload o2"] if other else []) + (["unload o3"] if inherit else [])
-            lines += loads + ["apply o1 go", "dump o1"] + (["dump o2"] if other else []) + [exp]
+            lines += loads + trig + dumps
+        self.meta.update({"via": via, "rep": rep})
         self.meta.update({"depth": depth, "inherit": inherit, "binary": binary, "caught": caught, "other": bool(other),
                           "override": bool(override), "maxline": max(s.line for s in allfiles)})
         return lines
@@ -579,6 +635,9 @@ class C18(Prop):
     def prepare(self, ctx):
         self.exe = E.compile_harness("c18", [os.path.join(E.VERIF, "harness/c18/c18.c")])
         self.conf = E.make_mudlib(ctx.rundir, master="/c18/master.c", extra_conf="SaveBinaryDir /bin\n")
+        t = open(self.conf).read()
+        t = re.sub(r"(?m)^SimulEfunFile\s+\S+", "SimulEfunFile   /c18/simul_efun.c", t)
+        open(self.conf, "w").write(t)
 
     def canon(self, lines):
         # a recoverable UBSan `pointer-overflow` report of binaries.c:locate_in (`ADD (prog->inherit, prog)` on a program
@@ -639,6 +698,8 @@ class C18(Prop):
             g = Gen(rng, "b_" + name.replace("-", "_"))
             kw.setdefault("other", False)
             kw.setdefault("override", False)
+            kw.setdefault("via", "apply")
+            kw.setdefault("rep", 1)
             lines = g.build(**kw)
             mk(name, lines, **g.meta)
 
@@ -687,7 +748,7 @@ class C18(Prop):
         gen("other-plain", fail_kind="funlitml", depth=2, nchild=3, nbase=0, binary=True, other=True)
         g = Gen(rng, "b_wide")
         mk("wide70000", g.build(fail_kind="div", depth=0, nchild=1, nbase=0, binary=False, prepad=("n", 70000), kind="wide",
-                                other=False, override=False),
+                                other=False, override=False, via="apply", rep=1),
            **g.meta)
         mk("init", case_init("b_init"), fail="init")
         mk("init-after-functions", case_init("b_init2", pad=40, funcs=3), fail="init")
@@ -701,7 +762,7 @@ class C18(Prop):
     def histogram(self, cases, impl):
         h = {"binary_all_reloaded_from_binary": 0, "binary_some_recompiled": 0, "fail": {}, "calls": {}, "depth": {}, "slots": {}, "inherit": 0, "binary": 0, "caught": 0, "long": 0,
              "maxline_ge_255": 0, "maxline_ge_32768": 0, "eh_lines": 0, "other": 0, "override": 0,
-             "lastline": {}, "files_without_final_newline": 0}
+             "lastline": {}, "files_without_final_newline": 0, "via": {}, "rep": {}}
         for c in cases:
             m = c.meta
             if "fail" in m:
@@ -712,6 +773,9 @@ class C18(Prop):
                 h["slots"][k] = h["slots"].get(k, 0) + 1
             if "depth" in m:
                 h["depth"][str(m["depth"])] = h["depth"].get(str(m["depth"]), 0) + 1
+            for k in ("via", "rep"):
+                if k in m:
+                    h[k][str(m[k])] = h[k].get(str(m[k]), 0) + 1
             for k in m.get("lastline", []):
                 h["lastline"][k] = h["lastline"].get(k, 0) + 1
             h["files_without_final_newline"] += len(m.get("nonl", []))
